@@ -485,6 +485,8 @@ def work(chunk):
 
 # ------------------------------------------------------------------ driver
 def run(ctx: Ctx):
+    from vf.prove import prove
+    prove(ctx, ["specs.mst"], "C13", lemma_groups=("uf", "wsum"))  # deductive part (specs/mst.py)
     use_repo()
     q = ctx.quick
     seed = ctx.seed
